@@ -36,3 +36,124 @@ Print Assumptions C19_versions_partial.
 Print Assumptions C19_modes.
 Print Assumptions C19_costs.
 Print Assumptions C19_field_versions.
+
+(* ------------------------------------------------------------------------------------------------------------
+   Extension (second round): what the three ALGORITHMS compute (Lemmas/VersionLemmas.v), composed with the table theorems *)
+From Coq Require Import List String NArith ZArith Bool Arith.
+From Tealer Require Import Tables Syntax Parse Cfg AvmTables TableLemmas Driver VersionLemmas.
+
+(* _verify_version: the flag list is the in-order list of instructions whose introduction version exceeds the declared one (FlagIns), else whose field version does (FlagField) *)
+Theorem C19_flags_are_the_unsupported_instructions :
+  forall (p : prog) (v : N),
+       fst (verify_version p v) =
+       flat_map
+         (fun i : ins =>
+          if unsupported_ins v (i_op i)
+          then (i_line i, FlagIns) :: nil
+          else if unsupported_field v (i_op i) then (i_line i, FlagField) :: nil else nil) p.
+Proof. exact @verify_version_flags_exact. Qed.
+
+(* a line is flagged iff its instruction or its field is newer than the declared version *)
+Theorem C19_line_flagged_iff :
+  forall (p : prog) (v : N) (ln : nat),
+       (exists fl : vflag, In (ln, fl) (fst (verify_version p v))) <->
+       (exists (i : ins) (iv : N),
+          In i p /\
+          i_line i = ln /\
+          ins_version (i_op i) = Some iv /\ (v < iv \/ (exists (kind : string) (fv : N), ins_field (i_op i) = Some (kind, fv) /\ v < fv))).
+Proof. exact @verify_version_line_flagged_iff. Qed.
+
+(* declared version = the `#pragma version` of the first instruction (1 when absent); mode = detect_mode *)
+Theorem C19_declared_version :
+  forall (p : prog) (t : teal), parse_teal p = Ok t -> t_version t = declared_version p /\ t_mode t = detect_mode p /\ t_prog t = p.
+Proof. exact @parse_teal_version_mode. Qed.
+
+(* THE FIRST SENTENCE OF THE PROPERTY: an instruction (outside the exclusion list [Method]) is flagged iff its AVM introduction version exceeds the declared version *)
+Theorem C19_flag_iff_avm_version :
+  forall (p : list ins) (v : N) (ln : nat),
+       (forall i : ins, In i p -> i_line i = ln -> ins_spec (i_op i) <> None /\ ~ In (cls_of (i_op i)) version_mismatch_names) ->
+       In (ln, FlagIns) (fst (verify_version p v)) <->
+       (exists (i : ins) (o : avm_op), In i p /\ i_line i = ln /\ ins_spec (i_op i) = Some o /\ v < a_version o).
+Proof. exact @C19_flag_iff_avm_version_partial. Qed.
+
+(* ... and a field is flagged iff the instruction is supported and the field's AVM version exceeds the declared version *)
+Theorem C19_field_flag_iff_avm_version :
+  forall (v : N) (i : instr) (o : avm_op) (k : string) (sv : N),
+       ins_spec i = Some o ->
+       ~ In (cls_of i) version_mismatch_names -> avm_field i = Some (k, sv) -> verify_ins v i = Some FlagField <-> a_version o <= v < sv.
+Proof. exact @C19_field_flag_iff_avm_version_partial. Qed.
+
+(* a mixture is flagged iff the program uses both a Stateful-only and a Stateless-only instruction *)
+Theorem C19_mixture_flagged :
+  forall (p : prog) (v : N),
+       snd (verify_version p v) = true <->
+       (exists i : ins, In i p /\ ins_mode (i_op i) = Some MStateful) /\ (exists j : ins, In j p /\ ins_mode (i_op j) = Some MStateless).
+Proof. exact @verify_version_mixed_iff. Qed.
+
+(* classification = mode of the FIRST mode-specific instruction; for unmixed programs: classified m iff it uses an m-only instruction; analysed as application iff classified Stateful *)
+Theorem C19_mode_classification_exact :
+  forall (p : prog) (t : teal),
+       parse_teal p = Ok t ->
+       (t_mode t = MAny <-> (forall i : ins, In i p -> mode_specific (i_op i) = false)) /\
+       (forall m : xmode,
+        m <> MAny ->
+        t_mode t = m <->
+        (exists (p1 : list ins) (i : ins) (p2 : list ins),
+           p = p1 ++ i :: p2 /\ (forall j : ins, In j p1 -> mode_specific (i_op j) = false) /\ ins_mode (i_op i) = Some m)) /\
+       (snd (verify_version (t_prog t) (t_version t)) = false ->
+        forall m : xmode, m <> MAny -> t_mode t = m <-> (exists i : ins, In i p /\ ins_mode (i_op i) = Some m)) /\
+       (contract_type_of t = "ApprovalProgram" <->
+        (exists (p1 : list ins) (i : ins) (p2 : list ins),
+           p = p1 ++ i :: p2 /\ (forall j : ins, In j p1 -> mode_specific (i_op j) = false) /\ ins_mode (i_op i) = Some MStateful)).
+Proof. exact @C19_mode_classification. Qed.
+
+(* ... with the AVM (v8) modes of the specification table *)
+Theorem C19_mode_against_avm :
+  forall p : prog,
+       detect_mode p =
+       match find (fun i : ins => negb (xmode_eqb (avm_mode_of (i_op i)) MAny)) p with
+       | Some i => avm_mode_of (i_op i)
+       | None => MAny
+       end.
+Proof. exact @C19_detect_mode_avm. Qed.
+
+(* displayed block cost = sum of the per-instruction costs at the declared version *)
+Theorem C19_block_cost_is_sum :
+  forall (t : teal) (b : block), block_cost t b = Nsum (map (cost_at t) (b_ins b)).
+Proof. exact @block_cost_sum. Qed.
+
+(* ... = the sum of the AVM specification costs, for declared versions 1..8 and blocks whose instructions all exist in that version *)
+Theorem C19_block_cost_is_avm_sum :
+  forall (t : teal) (b : block) (cs : list N),
+       In (t_version t) prog_versions -> map_opt (avm_cost_at t) (b_ins b) = Some cs -> block_cost t b = Nsum cs.
+Proof. exact @C19_block_cost_avm. Qed.
+
+(* REFUTED as worded for mixed programs: `arg 0; app_global_get` uses a Stateful-only instruction but is classified Stateless (first mode-specific instruction wins; the mixture IS flagged) *)
+Theorem C19_mixed_classification_refuted :
+  exists p : list ins,
+         (exists i : ins, In i p /\ ins_mode (i_op i) = Some MStateful) /\
+         detect_mode p = MStateless /\ (forall v : N, snd (verify_version p v) = true).
+Proof. exact @detect_mode_uses_naive_refuted. Qed.
+
+(* REFUTED (finding D22): ed25519verify is LogicSig-only up to v4; a v4 program using it with app_global_get is classified Stateful without any flag *)
+Theorem C19_versioned_mode_refuted :
+  exists (p : prog) (t : teal),
+         parse_teal p = Ok t /\
+         t_version t = 4 /\
+         t_mode t = MStateful /\
+         verify_version (t_prog t) (t_version t) = (nil, false) /\
+         (exists (i : ins) (o : avm_op), In i p /\ ins_spec (i_op i) = Some o /\ avm_mode_at o (t_version t) = MStateless).
+Proof. exact @C19_mode_versioned_refuted. Qed.
+
+Print Assumptions C19_flags_are_the_unsupported_instructions.
+Print Assumptions C19_line_flagged_iff.
+Print Assumptions C19_declared_version.
+Print Assumptions C19_flag_iff_avm_version.
+Print Assumptions C19_field_flag_iff_avm_version.
+Print Assumptions C19_mixture_flagged.
+Print Assumptions C19_mode_classification_exact.
+Print Assumptions C19_mode_against_avm.
+Print Assumptions C19_block_cost_is_sum.
+Print Assumptions C19_block_cost_is_avm_sum.
+Print Assumptions C19_mixed_classification_refuted.
+Print Assumptions C19_versioned_mode_refuted.
